@@ -37,7 +37,11 @@ func killOp(seed int64, round, i int) (Op, BlockSpec) {
 	switch p := rng.Intn(100); {
 	case p < 82:
 		h := uint64(1 + rng.Intn(killHeights))
-		return Op{K: "save_diff", H: h}, BlockSpec{Height: h, Salt: rng.Int63(), NTx: rng.Intn(4), SigMode: rng.Intn(2)}
+		sp := BlockSpec{Height: h, Salt: rng.Int63(), NTx: rng.Intn(4), SigMode: rng.Intn(2)}
+		if rng.Intn(12) == 0 {
+			sp.Big = []int{70 << 10, 256<<10 + 1, 300 << 10, 1<<20 + 4096}[rng.Intn(4)]
+		}
+		return Op{K: "save_diff", H: h}, sp
 	case p < 88:
 		return Op{K: "setheight", H: uint64(round*1_000_000 + i)}, BlockSpec{}
 	case p < 94:
